@@ -37,6 +37,7 @@ SEEDS = [
     ("{a: [1, 2, 3], b: [2, 3]}", "(a.*)-(b.*)"), ("{a: [1, 2, 3], b: [2, 3]}", "(a.*)&(b.*)"),
     ("{a: [1, 2, 3], b: [2, 3]}", "(a.*)+(b.*)"), ("[{a: 1, b: 2}, {a: 1}]", "([0])-([1])"),
     ("{l: [{n: 1, v: x}, {n: 2, v: y}]}", "(l[n=1])-(l[n=2].v)"),
+    ("{web: {port: 80, tier: front}, db: {port: 5432, tier: back}, retired: {web: 2019, port: 80}}", "(web)+(db)-(retired.*)"),
 ]
 
 
@@ -96,6 +97,17 @@ def shared_hash_doc(rng):
     return "{h: %s, g: %s, l: [%s, %s], s: %s}" % (h(), h(), h(), h(), rng.choice(["1", "a", "[1, 2]"]))
 
 
+def colliding_hash_doc(rng):
+    """Top-level hashes whose *names* are also the names of their members (x: {x: 1, y: 2}): subtraction drops
+    operands by name and prunes pairs by value, so the bookkeeping between the two is exercised."""
+    ks = ["x", "y", "z", "w"]
+    names = rng.sample(ks + ["h", "g"], 4)
+
+    def h():
+        return "{" + ", ".join("%s: %s" % (k, rng.choice(["1", "2"])) for k in rng.sample(ks, rng.randrange(1, 4))) + "}"
+    return "{" + ", ".join("%s: %s" % (n, h()) for n in names) + "}", names
+
+
 def run_shard(ctx):
     rng = ctx.rng
     sz = SIZES[ctx.tier]
@@ -111,6 +123,8 @@ def run_shard(ctx):
             text = rng.choice(gd.HOSTILE)
         elif x < 0.25:
             text = shared_hash_doc(rng)
+        elif x < 0.35:
+            text, names = colliding_hash_doc(rng)
         else:
             text, _ = gd.gen_doc(rng)
         try:
@@ -120,7 +134,17 @@ def run_shard(ctx):
         vocab = gp.doc_vocab(data)
         pg = gp.PathGen(rng, vocab, keywords=True)
         for _ in range(8):
-            if text.startswith("{h: ") and rng.random() < 0.5:
+            if 0.25 <= x < 0.35 and rng.random() < 0.7:
+                a, b, c = rng.sample(names, 3)
+                k = rng.choice(["x", "y", "z", "w"])
+                segs = None
+                path_override = rng.choice(["(%s)+(%s)-(%s.*)", "(%s)+(%s)-(%s)", "(%s)+(%s)-(%s.{k})", "(%s)+(%s)+(%s)-(%s.*)",
+                                            "(%s)+(%s)&(%s)", "(*)-(%s.*)", "(%s)+(%s)-(%s.*)-(%s)"]).replace("{k}", k)
+                ops3 = [a, b, c, rng.choice(names)]
+                path_override = path_override % tuple(ops3[:path_override.count("%s")])
+                kind = "collector"
+                ctx.count("colliding_name_collectors")
+            elif text.startswith("{h: ") and rng.random() < 0.5:
                 a, b = rng.sample(["h", "g", "l[0]", "l[1]"], 2)
                 k = rng.choice(["x", "y", "z", "w"])
                 segs = None
@@ -144,10 +168,16 @@ def run_shard(ctx):
                     continue
             modes = ["required", "exists"]
             # optional-match only on a path that already exists
+            fp_pre = yp.fingerprint(data)
             try:
                 exists_now = Processor(LOG, data).exists(path)
             except Exception:
                 exists_now = False
+            if yp.fingerprint(data) != fp_pre:          # this probe is a read too
+                ctx.violation("read-mutates/%s/exists" % kind, {
+                    "case": {"doc": text, "path": path, "mode": "exists"},
+                    "summary": "document after the read: %r" % yp.dump(data)[:200]})
+                data = yp.load(text)
             opt_ok = False
             if exists_now:
                 if kind == "collector":
